@@ -11,12 +11,20 @@ use std::collections::{BTreeMap, BTreeSet};
 use x86_64::structures::paging::mapper::{CleanUp, MappedFrame, MapToError, Mapper, TranslateResult, Translate};
 use x86_64::structures::paging::page::PageRangeInclusive;
 use x86_64::structures::paging::{MappedPageTable, OffsetPageTable, Page, PageSize, PageTableFlags, PhysFrame, Size1GiB, Size2MiB, Size4KiB};
+#[cfg(not(miri))]
+use x86_64::structures::paging::RecursivePageTable;
+#[cfg(not(miri))]
+use crate::softmmu::{PfEvent, SoftMmu};
+#[cfg(miri)]
+#[derive(Clone, Copy, Debug)]
+pub struct PfEvent { pub va: u64, pub phys: u64, pub write: bool, pub is_table: bool, pub in_arena: bool, pub end_level: u8, pub rip: u64 }
 use x86_64::{PhysAddr, VirtAddr};
 
 #[derive(Clone, Copy, PartialEq, Eq, Debug)]
 pub enum Kind {
     Mapped,
     Offset,
+    Recursive,
 }
 
 impl Kind {
@@ -24,6 +32,7 @@ impl Kind {
         match self {
             Kind::Mapped => "MappedPageTable",
             Kind::Offset => "OffsetPageTable",
+            Kind::Recursive => "RecursivePageTable",
         }
     }
 }
@@ -248,6 +257,12 @@ pub struct Env {
     pub history: Vec<J>,
     pub data_frames: Vec<u64>,
     pub desc: String,
+    /// RecursivePageTable: recursive index and software MMU
+    pub rec: Option<u16>,
+    #[cfg(not(miri))]
+    pub mmu: Option<Box<SoftMmu>>,
+    /// page faults resolved by the software MMU during the last mapper call
+    pub last_pf: std::cell::RefCell<Vec<PfEvent>>,
 }
 
 macro_rules! with_mapper {
@@ -261,11 +276,41 @@ macro_rules! with_mapper {
                 let mut $m = unsafe { OffsetPageTable::new(&mut *$env.arena.root_ptr(), VirtAddr::new($env.offset)) };
                 $body
             }
+            #[cfg(not(miri))]
+            Kind::Recursive => {
+                let l4 = $env.mmu.as_ref().unwrap().l4_addr();
+                let mut $m = RecursivePageTable::new(unsafe { &mut *(l4 as *mut x86_64::structures::paging::PageTable) }).expect("RecursivePageTable::new refused a recursive, active table");
+                $body
+            }
+            #[cfg(miri)]
+            Kind::Recursive => unreachable!(),
         }
     };
 }
 
 impl Env {
+    /// bracket a call into the mapper: arm the trap monitor / software MMU for the recursive mapper, flush its TLB after
+    fn bracket<T>(&self, f: impl FnOnce() -> T) -> T {
+        #[cfg(not(miri))]
+        if self.kind == Kind::Recursive {
+            crate::trapemu::regs().cr[3] = self.arena.root_phys() | 0x18; // low bits must be ignored by `new`
+            let was = crate::trapemu::nevents();
+            let _ = was;
+            crate::trapemu::arm(true);
+            let r = f();
+            crate::trapemu::arm(false);
+            // the mapper's references are gone: drop the on-demand pages (TLB flush) and keep the fault log
+            let m = self.mmu.as_ref().unwrap();
+            let mp = &**m as *const SoftMmu as *mut SoftMmu;
+            let log = unsafe {
+                (*mp).flush();
+                (*mp).take_log()
+            };
+            self.last_pf.borrow_mut().extend(log);
+            return r;
+        }
+        f()
+    }
     pub fn exec(&self, op: &Op) -> Out {
         let mut alloc = self.arena.allocator();
         crate::util::fault_means(
@@ -273,7 +318,7 @@ impl Env {
             format!("{}|{}|fatal-fault-in-mapper-code(access-outside-simulated-physical-memory)", self.kind.name(), op.name()),
             J::obj(vec![("impl", J::s(self.kind.name())), ("env", J::s(self.desc.clone())), ("op", op.to_json()), ("history_tail", J::A(self.history[self.history.len().saturating_sub(30)..].to_vec()))]),
         );
-        let r = catch_msg(|| with_mapper!(self, |m| exec_on(&mut m, op, &mut alloc)));
+        let r = self.bracket(|| catch_msg(|| with_mapper!(self, |m| exec_on(&mut m, op, &mut alloc))));
         crate::util::fault_means_nothing();
         match r {
             Ok(o) => o,
@@ -281,10 +326,10 @@ impl Env {
         }
     }
     pub fn translate(&self, va: u64) -> Result<TranslateResult, String> {
-        catch_msg(|| with_mapper!(self, |m| m.translate(VirtAddr::new(va))))
+        self.bracket(|| catch_msg(|| with_mapper!(self, |m| m.translate(VirtAddr::new(va)))))
     }
     pub fn translate_addr(&self, va: u64) -> Result<Option<u64>, String> {
-        catch_msg(|| with_mapper!(self, |m| m.translate_addr(VirtAddr::new(va)).map(|p| p.as_u64())))
+        self.bracket(|| catch_msg(|| with_mapper!(self, |m| m.translate_addr(VirtAddr::new(va)).map(|p| p.as_u64()))))
     }
     pub fn translate_page(&self, va: u64, lvl: u8) -> Out {
         self.exec(&Op::TranslatePage { lvl, page: va })
@@ -298,7 +343,7 @@ pub fn new_env(kind: Kind, r: &mut Rng, nframes: usize) -> Env {
     let mut phys: Vec<u64> = Vec::new();
     let mut offset = 0;
     match kind {
-        Kind::Mapped => {
+        Kind::Mapped | Kind::Recursive => {
             let mut set = BTreeSet::new();
             // root: sometimes physical frame 0 or the very last frame
             let root = match r.below(6) {
@@ -328,6 +373,9 @@ pub fn new_env(kind: Kind, r: &mut Rng, nframes: usize) -> Env {
         }
     }
     let seed = r.next();
+    #[cfg(not(miri))]
+    let mut arena = if kind == Kind::Recursive { Arena::new_memfd(phys, n_data, seed) } else { Arena::new(phys, kind == Kind::Offset, n_data, seed) };
+    #[cfg(miri)]
     let mut arena = Arena::new(phys, kind == Kind::Offset, n_data, seed);
     if kind == Kind::Offset {
         // choose the physical base: virtual = offset + phys must stay a usable lower-half address
@@ -351,9 +399,40 @@ pub fn new_env(kind: Kind, r: &mut Rng, nframes: usize) -> Env {
     let st = arena.st();
     st.policy = *r.pick(&[Policy::FreshFirst, Policy::RecycledFirst, Policy::Random, Policy::HugeAlignedFirst, Policy::LowFirst, Policy::HighFirst]);
     let data_frames: Vec<u64> = (0..st.n()).filter(|&i| st.role[i] == Role::Data).map(|i| st.phys[i]).collect();
-    let desc = format!("{} frames={} root={:#x} policy={:?} offset={:#x}", kind.name(), nframes, st.phys[0], st.policy, offset);
+    let mut rec = None;
+    #[cfg(not(miri))]
+    let mut mmu = None;
+    #[cfg(not(miri))]
+    if kind == Kind::Recursive {
+        // a lower-half recursive index whose 512 GiB region is free in this process
+        let scratch_slot = st.n();
+        for _ in 0..64 {
+            let cand = 1 + r.below(255) as u16;
+            if let Some(m) = SoftMmu::new(&arena, cand, scratch_slot) {
+                rec = Some(cand);
+                mmu = Some(m);
+                break;
+            }
+        }
+        let ri = rec.expect("no free recursive region in this process") as usize;
+        let root_phys = st.phys[0];
+        st.write(0, ri, root_phys | P | W);
+    }
+    let desc = format!("{} frames={} root={:#x} policy={:?} offset={:#x} recursive_index={:?}", kind.name(), nframes, st.phys[0], st.policy, offset, rec);
     let _ = &mut arena;
-    Env { kind, arena, model: Model::new(false), offset, history: Vec::new(), data_frames, desc }
+    Env {
+        kind,
+        arena,
+        model: Model::new(kind == Kind::Recursive),
+        offset,
+        history: Vec::new(),
+        data_frames,
+        desc,
+        rec,
+        #[cfg(not(miri))]
+        mmu,
+        last_pf: std::cell::RefCell::new(Vec::new()),
+    }
 }
 
 // ------------------------------------------------------------------------------------------------
@@ -367,14 +446,14 @@ pub struct Universe {
     pub p1: Vec<u16>,
 }
 
-pub fn universe(r: &mut Rng) -> Universe {
+pub fn universe(r: &mut Rng, exclude_p4: Option<u16>) -> Universe {
     let pool4: [u16; 8] = [0, 1, 255, 256, 511, 2, 254, 257];
     let pool: [u16; 6] = [0, 1, 511, 2, 255, 256];
-    fn pick(r: &mut Rng, n: usize, pool: &[u16]) -> Vec<u16> {
+    fn pick(r: &mut Rng, n: usize, pool: &[u16], ex: Option<u16>) -> Vec<u16> {
         let mut v: Vec<u16> = Vec::new();
         while v.len() < n {
             let x = if r.chance(1, 8) { r.below(512) as u16 } else { *r.pick(pool) };
-            if !v.contains(&x) {
+            if !v.contains(&x) && Some(x) != ex {
                 v.push(x);
             }
         }
@@ -383,7 +462,7 @@ pub fn universe(r: &mut Rng) -> Universe {
     let n4 = 2 + r.below(3) as usize;
     let n3 = 2 + r.below(2) as usize;
     let n2 = 2 + r.below(2) as usize;
-    Universe { p4: pick(r, n4, &pool4), p3: pick(r, n3, &pool), p2: pick(r, n2, &pool), p1: pick(r, 3, &pool) }
+    Universe { p4: pick(r, n4, &pool4, exclude_p4), p3: pick(r, n3, &pool, None), p2: pick(r, n2, &pool, None), p1: pick(r, 3, &pool, None) }
 }
 
 fn gen_page(r: &mut Rng, u: &Universe, lvl: u8) -> u64 {
@@ -632,7 +711,10 @@ pub fn step(env: &mut Env, op: &Op, fail: Fail, rep: &mut Report, r: &mut Rng, m
     let pre_snap = if mon.bytediff { Some(st.snapshot()) } else { None };
     let root = env.arena.root_phys();
     let is_clean = matches!(op, Op::CleanUp | Op::CleanRange { .. });
-    let pre_dump = if is_clean { Some(hwwalk::dump(st, root)) } else { None };
+    let skip = env.rec;
+    let need_pre = is_clean || env.kind == Kind::Recursive;
+    let pre_dump = if need_pre { Some(hwwalk::dump_skip(st, root, skip)) } else { None };
+    env.last_pf.borrow_mut().clear();
     // natural exhaustion of the pool also fails a request
     let eff_fail = match fail.at {
         Some(k) if k <= avail + 1 => fail,
@@ -695,7 +777,7 @@ pub fn step(env: &mut Env, op: &Op, fail: Fail, rep: &mut Report, r: &mut Rng, m
     }
     // 3. dump vs model
     let st: &mut State = env.arena.st();
-    let post = hwwalk::dump(st, root);
+    let post = hwwalk::dump_skip(st, root, skip);
     rep.count("dumps_compared", 1);
     rep.count("table_entries_read", post.entries_read);
     if is_clean {
@@ -798,6 +880,51 @@ pub fn step(env: &mut Env, op: &Op, fail: Fail, rep: &mut Report, r: &mut Rng, m
         viol(rep, env, "C09", format!("{}|{}|{}|frame_to_pointer-for-non-table-frame", kname, opn, cls_sig(&cls)), op, vec![("frame", J::hex(bad[0]))]);
         violated = true;
     }
+    // 5b. software MMU log (RecursivePageTable): which physical frame every recursive access really reached (C09),
+    //     and whether the address used is the recursive address of one of the hierarchy's tables (C20)
+    if env.kind == Kind::Recursive {
+        let log: Vec<PfEvent> = env.last_pf.borrow_mut().drain(..).collect();
+        rep.count("softmmu_faults_resolved", log.len() as u64);
+        let ri = env.rec.unwrap() as u64;
+        let mut table_vas: BTreeSet<u64> = BTreeSet::new();
+        table_vas.insert((ri << 39) | (ri << 30) | (ri << 21) | (ri << 12));
+        let mut add = |d: &Dump| {
+            fn rec(k: &BTreeMap<u16, hwwalk::RNode>, level: u8, path: &mut Vec<u64>, ri: u64, out: &mut BTreeSet<u64>) {
+                for (&i, n) in k.iter() {
+                    if let hwwalk::RNode::Table { kids, .. } = n {
+                        path.push(i as u64);
+                        // a table reached by `path` (len = 4 - its level) sits at R repeated (4 - len) times, then the path
+                        let mut idx = vec![ri; 4 - path.len()];
+                        idx.extend(path.iter().copied());
+                        out.insert((idx[0] << 39) | (idx[1] << 30) | (idx[2] << 21) | (idx[3] << 12));
+                        rec(kids, level - 1, path, ri, out);
+                        path.pop();
+                    }
+                }
+            }
+            let mut path = Vec::new();
+            rec(&d.kids, 4, &mut path, ri, &mut table_vas);
+        };
+        if let Some(d) = pre_dump.as_ref() {
+            add(d);
+        }
+        add(&post);
+        for e in log.iter() {
+            if !e.is_table && !violated {
+                let what = if e.phys == u64::MAX { "recursive-access-through-non-present-entry" } else if e.in_arena { "recursive-access-reached-non-table-frame" } else { "recursive-access-reached-memory-outside-the-hierarchy" };
+                viol(rep, env, "C09", format!("{}|{}|{}|{}{}", kname, opn, cls_sig(&cls), what, if e.end_level >= 2 { "(through-huge-page-entry)" } else { "" }), op, vec![("va", J::hex(e.va)), ("reached_frame", J::hex(e.phys)), ("write", J::Bool(e.write)), ("state_class", J::s(cls.clone()))]);
+                violated = true;
+            }
+            if !table_vas.contains(&e.va) && !violated {
+                viol(rep, env, "C20", format!("{}|{}|access-at-address-that-is-not-the-recursive-address-of-a-table", kname, opn), op, vec![("va", J::hex(e.va)), ("recursive_index", J::U(ri))]);
+                violated = true;
+            }
+        }
+        #[cfg(not(miri))]
+        if env.mmu.as_ref().map(|m| m.overflow).unwrap_or(false) {
+            rep.inconclusive = Some("software MMU log / mapping table overflow".into());
+        }
+    }
     // 6. probes: the crate's translate* vs the hardware walk of raw memory vs the model
     if mon.probes && !violated {
         if probe(env, op, rep, r) {
@@ -834,7 +961,11 @@ fn probe_addrs(env: &Env, op: &Op, r: &mut Rng) -> Vec<u64> {
         v.push(b + r.below(0x1000));
     }
     let leaves = env.model.leaves();
-    for _ in 0..6 {
+    if env.kind == Kind::Recursive {
+        // every probe costs several software-MMU faults: keep the op's own page plus a few leaves
+        v.truncate(5);
+    }
+    for _ in 0..(if env.kind == Kind::Recursive { 1 } else { 6 }) {
         if leaves.is_empty() {
             break;
         }
@@ -1071,7 +1202,7 @@ fn check_cleanup(env: &mut Env, op: &Op, pre: &Dump, post: &Dump, log: &[crate::
             bad = true;
         }
         let root = env.arena.root_phys();
-        let post2 = hwwalk::dump(env.arena.st(), root);
+        let post2 = hwwalk::dump_skip(env.arena.st(), root, env.rec);
         if post2.kids != post.kids {
             viol(rep, env, "C10", format!("{}|{}|repeated-clean-up-changed-tables", kname, opn), op, vec![]);
             bad = true;
@@ -1162,7 +1293,7 @@ fn untouched_violation(pre: &BTreeMap<u16, hwwalk::RNode>, post: &BTreeMap<u16, 
 
 pub fn run_history(kind: Kind, r: &mut Rng, rep: &mut Report, focus: &str, len: usize, nframes: usize, enumerate_faults: bool) {
     let mut env = new_env(kind, r, nframes);
-    let u = universe(r);
+    let u = universe(r, env.rec);
     let mon = Monitors { probes: true, bytediff: true };
     rep.count("histories", 1);
     for _ in 0..len {
@@ -1234,7 +1365,14 @@ pub fn run(a: &Args, rep: &mut Report, focus: &str) {
     let kinds: Vec<Kind> = match a.get("impl") {
         Some("mapped") => vec![Kind::Mapped],
         Some("offset") => vec![Kind::Offset],
-        _ => vec![Kind::Mapped, Kind::Offset],
+        Some("recursive") => vec![Kind::Recursive],
+        _ => {
+            if under_miri {
+                vec![Kind::Mapped, Kind::Offset]
+            } else {
+                vec![Kind::Mapped, Kind::Offset, Kind::Recursive]
+            }
+        }
     };
     for h in 0..histories {
         let kind = kinds[(h as usize) % kinds.len()];
